@@ -1,6 +1,6 @@
 (* C17: lame_parameters -- every branch the source can execute returns (lambda, mu) that satisfy the
    defining relations of the elastic constants it was given (or not: the (lambda, E) branch). *)
-From Coq Require Import ZArith QArith List Field Ring Lia Bool.
+From Coq Require Import ZArith QArith List Field Ring Lia Bool String.
 From DV Require Import Base.Field Base.FieldFacts Base.LinAlg Base.QcInst Model.Losses Model.RegStencil Model.Regularisers
   Gen.Regs Proofs.C16Lists.
 Import ListNotations.
@@ -105,15 +105,60 @@ Proof.
   - rewrite Hq. f_equal. ring.
   - field. exact Hd.
 Qed.
+(* the source's (lambda, E) branch is that closed form *)
+Lemma lame_first_young_is_spec (r lam ym : K) : gen_lame_first_young r lam ym = lame_first_young_spec r lam ym.
+Proof.
+  unfold gen_lame_first_young, lame_first_young_spec. cbn [of_Z of_pos]. f_equal.
+  assert (H4 : (1 + 1) * (1 + 1) <> (0 : K)) by (apply (mul_nz K Kf); exact two_nz).
+  assert (H4' : (1 + 1) * ((1 + 1) * 1) <> (0 : K)) by (intro E; apply H4; rewrite <- E; ring).
+  apply div_intro; [exact H4'|].
+  transitivity ((ym - (1 + 1 + 1) * lam + r) / ((1 + 1) * (1 + 1)) * ((1 + 1) * (1 + 1))); [|ring].
+  rewrite (div_mul _ _ H4). ring.
+Qed.
+
+Lemma lame_first_young (r lam ym : K) :
+  r * r = gen_lame_first_young_radicand lam ym -> lam + snd (gen_lame_first_young r lam ym) <> 0 ->
+  fst (gen_lame_first_young r lam ym) = lam /\
+  youngs_of (fst (gen_lame_first_young r lam ym)) (snd (gen_lame_first_young r lam ym)) = ym.
+Proof.
+  rewrite lame_first_young_is_spec. intros Hr Hd. split; [reflexivity | apply lame_first_young_spec_ok; assumption].
+Qed.
+
+(* (nu, E) *)
+Lemma lame_poisson_young (nu ym : K) : ym <> 0 -> 1 + nu <> 0 -> 1 - (1 + 1) * nu <> 0 ->
+  youngs_of (fst (gen_lame_poisson_young nu ym)) (snd (gen_lame_poisson_young nu ym)) = ym /\
+  poisson_of (fst (gen_lame_poisson_young nu ym)) (snd (gen_lame_poisson_young nu ym)) = nu.
+Proof.
+  intros Hy Ha Hb0. unfold gen_lame_poisson_young, youngs_of, poisson_of. cbn [fst snd of_Z of_pos].
+  assert (Hb : 1 - (1 + 1) * 1 * nu <> 0) by (intro E; apply Hb0; rewrite <- E; ring).
+  set (a := 1 + nu) in *. set (b := 1 - (1 + 1) * 1 * nu) in *.
+  assert (Hab : a * b <> 0) by (apply (mul_nz K Kf); assumption).
+  assert (H2a : (1 + 1) * 1 * a <> 0) by (apply (mul_nz K Kf); [apply (mul_nz K Kf); [exact two_nz | apply (one_nz K Kc)] | exact Ha]).
+  pose proof (div_mul (nu * ym) (a * b) Hab) as Hl. pose proof (div_mul ym ((1 + 1) * 1 * a) H2a) as Hm.
+  set (lam := nu * ym / (a * b)) in *. set (mu := ym / ((1 + 1) * 1 * a)) in *.
+  assert (Hs : (lam + mu) * ((1 + 1) * (a * b)) = ym).
+  { transitivity ((1 + 1) * (lam * (a * b)) + (mu * ((1 + 1) * 1 * a)) * b); [ring|]. rewrite Hl, Hm. unfold b. ring. }
+  assert (H2ab : (1 + 1) * (a * b) <> 0) by (apply (mul_nz K Kf); [exact two_nz | exact Hab]).
+  assert (HS : lam + mu <> 0) by (apply (nz_of_mul _ ((1 + 1) * (a * b))); rewrite Hs; exact Hy).
+  split.
+  - apply div_intro; [exact HS|].
+    apply (mul_cancel_r _ _ (((1 + 1) * 1 * a) * (a * b)) (mul_nz K Kf _ _ H2a Hab)).
+    transitivity ((mu * ((1 + 1) * 1 * a)) * ((1 + 1 + 1) * (lam * (a * b)) + (mu * ((1 + 1) * 1 * a)) * b)); [ring|].
+    transitivity (ym * ((lam + mu) * ((1 + 1) * (a * b))) * a); [rewrite Hl, Hm, Hs; unfold a, b; ring | ring].
+  - apply div_intro; [apply (mul_nz K Kf); [exact two_nz | exact HS]|].
+    apply (mul_cancel_r _ _ (a * b) Hab).
+    transitivity (nu * ((lam + mu) * ((1 + 1) * (a * b)))); [rewrite Hl, Hs; ring | ring].
+Qed.
 End Lame.
 
-(* the source's (lambda, E) branch is not that closed form: r / 4 instead of (... + r) / 4 *)
-Lemma lame_first_young_refuted :
-  exists r lam ym : QcF,
-    qeqb (r * r)%F (gen_lame_first_young_radicand lam ym) = true /\
-    qeqb (youngs_of (fst (lame_first_young_spec QcF r lam ym)) (snd (lame_first_young_spec QcF r lam ym))) ym = true /\
-    qeqb (youngs_of (fst (gen_lame_first_young r lam ym)) (snd (gen_lame_first_young r lam ym))) ym = false.
-Proof. exists (q 9 1), (q 2 1), (q 5 1). vm_compute. repeat split. Qed.
+(* the whole generated table: every pair of distinct keywords is executable except the mutually
+   exclusive (second_parameter, shear_modulus); unknown / missing material names are rejected *)
+Lemma lame_table_ok :
+  gen_lame_table = [("first_second", "Ok"); ("first_shear", "Ok"); ("first_poisson", "Ok"); ("first_young", "Ok");
+                    ("second_shear", "ValueError"); ("second_poisson", "Ok"); ("second_young", "Ok");
+                    ("shear_poisson", "Ok"); ("shear_young", "Ok"); ("poisson_young", "Ok");
+                    ("material_steel", "ValueError"); ("material_none", "ValueError")]%string.
+Proof. reflexivity. Qed.
 
 (* rubber preset: mu = 0.0006 and Poisson's ratio 0.4999 up to the float evaluation of lambda *)
 Lemma lame_rubber_ok :
